@@ -168,7 +168,13 @@ class Parser:
                     self.eat("}")
                     stmts.append(("iflet", ctor, v, e, inner))
                 else:
-                    raise TranslateError("`if` in a forwarding body")
+                    c = self.cond()
+                    self.eat("{")
+                    inner = self.body()
+                    self.eat("}")
+                    if self.at("else"):
+                        raise TranslateError("`if .. else` in a forwarding body")
+                    stmts.append(("if", c, inner))
             elif self.at("break"):
                 self.eat()
                 e = self.expr()
@@ -188,6 +194,14 @@ class Parser:
                     tail = e
                     break
         return stmts, tail
+
+    def cond(self):
+        """`!e` | `e` | `e <cmp> e` with numeric literals allowed"""
+        a = self.unary(True)
+        if self.peek()[0] == "op" and self.peek()[1] in (">", "<", ">=", "<=", "==", "!="):
+            op = self.eat()[1]
+            return ("cmp", op, a, self.unary(True))
+        return a
 
     # ---- expressions (no binary operators except `as`; prefix `!` `-` `&` `*`)
     def expr(self, nostruct=False):
@@ -241,6 +255,22 @@ class Parser:
             if stmts or tail is None:
                 raise TranslateError("unsafe block with statements")
             return tail
+        if self.at("match"):
+            self.eat()
+            scrut = self.expr(nostruct=True)
+            self.eat("{")
+            arms = []
+            while not self.at("}"):
+                ctor = self.eat()[1]
+                self.eat("(")
+                v = self.eat()[1]
+                self.eat(")")
+                self.eat("=>")
+                arms.append((ctor, v, self.expr()))
+                if self.at(","):
+                    self.eat()
+            self.eat("}")
+            return ("match", scrut, arms)
         if self.at("|"):
             self.eat()
             params = []
@@ -399,7 +429,14 @@ class Emit:
                 return "none"
             raise TranslateError("name %s is not declared for this function" % rust_text(e))
         if k == "num":
+            if getattr(self, "in_cond", False) and re.fullmatch(r"\d+", e[1]):
+                return e[1]
             raise TranslateError("numeric literal %s in a forwarding body" % e[1])
+        if k == "cmp":
+            self.in_cond = True
+            a, b = self.atom(e[2]), self.atom(e[3])
+            self.in_cond = False
+            return "(%s %s %s)" % (a, {"==": "=", "!=": "≠"}.get(e[1], e[1]), b)
         if k == "unit":
             return "()"
         if k == "tuple":
@@ -410,11 +447,16 @@ class Emit:
             h = self.names.get("struct:" + e[1][-1])
             return "(%s %s)" % (h[1] if h else e[1][-1] + ".mk", " ".join(self.atom(x) for _, x in e[2]))
         if k == "cast":
+            mm = re.fullmatch(r"(\w+)\.as_mut_ptr\(\) as \* mut (?:u8|MaybeUninit < u8 >)", rust_text(e))
+            if mm:                                # the address of the buffer as a byte pointer: the buffer itself
+                return self.term(("path", [mm.group(1)]))
             raise TranslateError("cast `%s`" % rust_text(e))
         if k == "not":
             h = self.names.get("!" + rust_text(e[1]))
             if h:
                 return h[1]
+            if getattr(self, "allow_not", False):
+                return "(!%s)" % self.atom(e[1])
             raise TranslateError("operator `!`")
         if k == "closure":
             sub = Emit(self.names)
@@ -469,6 +511,8 @@ class Emit:
             h = self.names.get(ft)
             if not h:
                 raise TranslateError("function %s is not declared for this function" % ft)
+            if h[0] == "div":
+                return self.bind("(Panics.panic : m Unit)")
             # `f(&mut local, ..)` on a local snapshot of a generator: state passing - the call returns the new snapshot
             rebind = [rust_text(x) for x in args if x[0] == "refmut" and x[1][0] == "path" and x[1][1][0] in self.locals and self.names.get("snapshot:" + x[1][1][0])]
             a = [self.atom(x) for x in args]
@@ -525,6 +569,23 @@ class Emit:
                     raise TranslateError("assignment to %s is not declared for this function" % lhs)
                 t = self.term(s[2])
                 self.out("%s %s" % (h[1], self.atom_t(t)))
+            elif k == "if":
+                self.allow_not = True
+                c = self.term(s[1])
+                self.allow_not = False
+                self.out("if %s then" % c)
+                sub = Emit(self.names)
+                sub.locals, sub.ind, sub.n = set(self.locals), self.ind + "  ", self.n
+                inner = s[2]
+                if inner[1] is not None:
+                    tl = inner[1]
+                    if tl[0] == "call" and (self.names.get(rust_text(tl[1])) or ("", ""))[0] == "div":
+                        inner = (inner[0] + [("expr", tl)], None)       # a diverging call in tail position
+                    else:
+                        raise TranslateError("`if` with a value")
+                sub.stmts(inner)
+                self.n = sub.n
+                self.lines += sub.lines
             elif k == "for":
                 var, it, inner = s[1], s[2], s[3]
                 # only `for elem in buf { *elem = <expr>; }`
@@ -563,6 +624,23 @@ class Emit:
             self.out("loopUntilSome %s (do" % f[1])
             self.lines += sub.lines
             self.out("  pure %s) fuel" % sub.atom_t(t))
+        elif tail[0] == "match":
+            sc = self.atom(tail[1])
+            self.out("match %s with" % sc)
+            for ctor, v, arm in tail[2]:
+                pat = {"Ok": ".ok", "Err": ".error", "Some": "some"}.get(ctor)
+                if not pat or v != "_":
+                    raise TranslateError("match arm %s(%s)" % (ctor, v))
+                sub = Emit(self.names)
+                sub.locals, sub.ind, sub.n = set(self.locals), self.ind + "  ", self.n
+                if arm[0] == "call" and (self.names.get(rust_text(arm[1])) or ("", ""))[0] == "div":
+                    sub.out("Panics.panic")
+                else:
+                    t = sub.term(arm)
+                    sub.out("pure %s" % sub.atom_t(t))
+                self.n = sub.n
+                self.out("| %s _ =>" % pat)
+                self.lines += sub.lines
         else:
             t = self.term(tail)
             self.out("pure %s" % self.atom_t(t))
@@ -621,7 +699,7 @@ def impl_spans(text):
     return out
 
 
-def locate(repo, rel, name, header=None, nth=0, macro=None):
+def locate(repo, rel, name, header=None, nth=0, macro=None, pick=None):
     """body text of fn `name` (inside the impl whose header contains `header`; inside `macro_rules! macro`)"""
     text = strip_comments(open(os.path.join(repo, rel)).read())
     text = re.sub(r"#\[test\]\s*fn\s+\w+\s*\(\)\s*\{", "fn_test {", text)
@@ -645,6 +723,10 @@ def locate(repo, rel, name, header=None, nth=0, macro=None):
             raise TranslateError("%s: %d items `%s`" % (rel, len(spans), header))
         lo, hi = spans[nth][1], spans[nth][2]
     hits = [b for s, n, b in fn_bodies(text) if n == name and lo <= s < hi]
+    if pick is not None:
+        if len(hits) != pick[1]:
+            raise TranslateError("%s: %d functions `%s`, expected %d" % (rel, len(hits), name, pick[1]))
+        return hits[pick[0]]
     if len(hits) != 1:
         raise TranslateError("%s: %d functions `%s`%s" % (rel, len(hits), name, " in `%s`" % header if header else ""))
     return hits[0]
@@ -652,7 +734,7 @@ def locate(repo, rel, name, header=None, nth=0, macro=None):
 
 def translate(repo, spec):
     rel, name = spec["file"], spec["fn"]
-    body = locate(repo, rel, name, spec.get("header"), spec.get("nth", 0), spec.get("macro"))
+    body = locate(repo, rel, name, spec.get("header"), spec.get("nth", 0), spec.get("macro"), spec.get("pick"))
     for a, b in spec.get("subst", []):       # macro parameters
         body = body.replace(a, b)
     p = Parser(tokenize(body))
@@ -672,7 +754,7 @@ def translate(repo, spec):
     em.stmts(parsed)
     body = "\n".join(em.lines)
     binders = spec["binders"]
-    if "unwrap " in body or "Panics.panic" in body:
+    if "unwrap " in body or "Panics.panic" in body or spec.get("panics"):
         binders = "[Panics m] " + binders
     return "def %s %s : %s := do\n%s\n" % (spec["lean"], binders, spec["ret"], body)
 
@@ -800,6 +882,20 @@ FUNCS_CTOR += [
 ]
 
 
+# src/rng/entropy.rs: both back ends (the first pair of functions is the `getrandom` one, the second the extern `getentropy_raw` one)
+FUNCS_ENTROPY = [
+    {"file": "src/rng/entropy.rs", "fn": "getentropy", "pick": (0, 2), "lean": "entropy.getrandom_getentropy", "binders": "(getentropy_uninit : Pod → m Pod) (buf : Pod)", "ret": "m Pod",
+     "names": {"getentropy_uninit": ("fn", "getentropy_uninit")}, "params": ["buf"]},
+    {"file": "src/rng/entropy.rs", "fn": "getentropy_uninit", "pick": (0, 2), "lean": "entropy.getrandom_getentropy_uninit", "binders": "(getrandom_uninit : BitVec 64 → m (Except Unit Unit)) (buf : Pod)", "ret": "m Pod",
+     "names": {"getrandom::getrandom_uninit": ("fn", "getrandom_uninit"), "getentropy_not_ready": ("div", "")}, "params": ["buf"]},
+    {"file": "src/rng/entropy.rs", "fn": "getentropy", "pick": (1, 2), "lean": "entropy.raw_getentropy", "binders": "(getentropy_uninit : Pod → m Pod) (buf : Pod)", "ret": "m Pod",
+     "names": {"getentropy_uninit": ("fn", "getentropy_uninit")}, "params": ["buf"]},
+    {"file": "src/rng/entropy.rs", "fn": "getentropy_uninit", "pick": (1, 2), "lean": "entropy.raw_getentropy_uninit", "binders": "(getentropy_raw : Pod → BitVec 64 → m Bool) (buf : Pod)", "ret": "m Pod",
+     "names": {"getentropy_raw": ("fn", "getentropy_raw"), "getentropy_not_ready": ("div", "")}, "params": ["buf"]},
+    {"file": "src/rng/entropy.rs", "fn": "getentropy_not_ready", "lean": "entropy.not_ready", "binders": "", "ret": "m Unit", "names": {}},
+]
+
+
 def rng_overrides(repo):
     """which methods every `impl .. Rng for ..` block of src/rng/*.rs defines (the others are the trait's defaults)"""
     out = []
@@ -854,6 +950,33 @@ def tuple_arities(repo):
     return ar
 
 
+def chacha_serde(repo):
+    """src/rng/chacha.rs: the hand-written `Serialize` / `Deserialize` of `ChaChaState`.  `serialize` must be `[<field>[i], ..].serialize(serializer)`,
+    `deserialize` `let values = <[u32; K]>::deserialize(deserializer)?; Ok(ChaChaState { <field>: [values[i], ..], .. })`; the two index tables
+    are emitted (the round-trip theorem is about them)."""
+    text = strip_comments(open(os.path.join(repo, "src/rng/chacha.rs")).read())
+    flat = "".join(text.split())
+    m = re.search(r"fnserialize<S:serde::Serializer>\(&self,serializer:S\)->Result<S::Ok,S::Error>\{\[((?:self\.\w+\[\d+\],?)+)\]\.serialize\(serializer\)\}", flat)
+    if not m:
+        raise TranslateError("chacha.rs: ChaChaState::serialize is not `[self.<field>[i], ..].serialize(serializer)`")
+    ser = re.findall(r"self\.(\w+)\[(\d+)\]", m.group(1))
+    m = re.search(r"fndeserialize<D:serde::Deserializer<'de>>\(deserializer:D\)->Result<Self,D::Error>\{letvalues=<\[u32;(\d+)\]>::deserialize\(deserializer\)\?;Ok\(ChaChaState\{((?:\w+:\[(?:values\[\d+\],?)+\],?)+)\}\)\}", flat)
+    if not m:
+        raise TranslateError("chacha.rs: ChaChaState::deserialize is not `let values = <[u32; K]>::deserialize(deserializer)?; Ok(ChaChaState { <field>: [values[i], ..], .. })`")
+    k = int(m.group(1))
+    de = [(f, [int(x) for x in re.findall(r"values\[(\d+)\]", body)]) for f, body in re.findall(r"(\w+):\[((?:values\[\d+\],?)+)\]", m.group(2))]
+    sm = re.search(r"structChaChaState<constN:usize>\{((?:\w+:\[u32;\d+\],?)+)\}", flat)
+    if not sm:
+        raise TranslateError("chacha.rs: struct ChaChaState has another shape")
+    fields = [(f, int(n)) for f, n in re.findall(r"(\w+):\[u32;(\d+)\]", sm.group(1))]
+    return ("/-- `ChaChaState`'s fields (arrays of u32) with their lengths -/\ndef chachaFields : List (String × Nat) := [%s]\n\n"
+            "/-- `serialize`: the sequence written, as (field, index) -/\ndef chachaSerialize : List (String × Nat) := [%s]\n\n"
+            "/-- `deserialize`: the length of the sequence read, and per field the positions its elements are taken from -/\ndef chachaDeserializeLen : Nat := %d\n"
+            "def chachaDeserialize : List (String × List Nat) := [%s]\n" % (
+                ", ".join('("%s", %d)' % f for f in fields), ", ".join('("%s", %s)' % x for x in ser), k,
+                ", ".join('("%s", [%s])' % (f, ", ".join(map(str, ix))) for f, ix in de)))
+
+
 def generate(repo, out_dir, write):
     DISTR_ENTRY = {"next", "fill", "range", "float01", "sample", "coin_flip", "choose", "choose_mut"}
     core = [f for f in FUNCS_RANDOM if not (f["file"] == "src/random.rs" and f["fn"] in DISTR_ENTRY)]
@@ -863,6 +986,8 @@ def generate(repo, out_dir, write):
               ("GlueDistr.lean", FUNCS_DISTR, "src/distr.rs, src/distr/samples.rs, src/distr/uniform.rs", None),
               ("GlueStandard.lean", FUNCS_STANDARD, "src/distr/standard.rs", "std"),
               ("GlueCtor.lean", FUNCS_CTOR, "src/lib.rs and the constructors of src/rng/{splitmix64,wyrand,xoshiro256,chacha}.rs", None),
+              ("GlueEntropy.lean", FUNCS_ENTROPY, "src/rng/entropy.rs", None),
+              ("GlueSerde.lean", [], "src/rng/chacha.rs (hand-written serde of ChaChaState)", "serde"),
               ("GlueRng.lean", FUNCS_RNG, "src/rng/{chacha,xoshiro256,wyrand,splitmix64,block,system}.rs", "rng")]
     for fname, funcs, srcs, extra in groups:
         try:
@@ -871,6 +996,8 @@ def generate(repo, out_dir, write):
                 ov = rng_overrides(repo)
                 ex = "/-- the methods each `impl Rng for ..` block defines itself: (file, type, methods) -/\ndef rngImpls : List (String × String × List String) :=\n  [%s]\n" % (
                     ",\n   ".join('("%s", "%s", [%s])' % (f, t, ", ".join('"%s"' % x for x in fns)) for f, t, fns in ov))
+            if extra == "serde":
+                ex = chacha_serde(repo)
             if extra == "std":
                 ex = "/-- arities of the `impl_standard_dist_tuple!` invocations (body shape checked: one `StandardUniform` sample per component, in order) -/\ndef tupleArities : List Nat := [%s]\n" % ", ".join(str(a) for a in tuple_arities(repo))
             text = emit_group(repo, funcs, srcs, ex)
